@@ -279,6 +279,10 @@ func (rn *runner) Step(ctx *core.Ctx, op []string) string {
 		}
 		x.h.SetHeader(b)
 		copy(x.span, b)
+		// the hasher must have captured the header: the caller recycles its span buffer right away
+		for i := range b {
+			b[i] ^= 0xa5
+		}
 		return "ok"
 	case (len(op) == 3 && op[0] == "write") || (len(op) == 4 && op[0] == "writegen"):
 		x := rn.hs[op[1]]
